@@ -171,8 +171,19 @@ def real_corpus(ctx, want):
                     if not ok:
                         bad.append(f"{tag}: format({name}) line {i} {ln!r} does not carry markers {x['m']} / payload {x['p']}")
                         break
-                if name == "ascii_only" and any(ord(ch) > 127 for ln in real for ch in ln):
-                    bad.append(f"{tag}: ascii_only output is not ASCII")
+                box = set("".join(UNI.values()))
+                if (name == "ascii_only" and any(ord(ch) > 127 for ln in real for ch in ln)
+                        and not any(ord(ch) > 127 and ch not in box for ln in r["uni"] for ch in ln)):
+                    bad.append(f"{tag}: ascii_only output is not ASCII although names, source and reprs are")
+            # ascii_only is the same text with each prefix marker replaced
+            if len(r["uni"]) == len(e["lines"]) == len(r["asc"]):
+                for i, (u, a, x) in enumerate(zip(r["uni"], r["asc"], e["lines"])):
+                    if x["p"][0] == "blank":
+                        continue
+                    pu, pa = "".join(UNI[t] for t in x["m"]), "".join(ASC[t] for t in x["m"])
+                    if u[len(pu):] != a[len(pa):]:
+                        bad.append(f"{tag}: line {i}: after the markers the ascii_only line reads {a[len(pa):]!r}, the default one {u[len(pu):]!r}")
+                        break
             if not r["str_is_join"]:
                 bad.append(f"{tag}: str(x) is not the concatenation of format()")
         else:
